@@ -31,12 +31,14 @@ def linear(e, classify):
             out[k] = out.get(k, 0) + v
         return out
     if isinstance(e, ast.BinOp) and isinstance(e.op, ast.Mult):
+        from ..rules import _ca_int
         for x, y in ((e.left, e.right), (e.right, e.left)):
-            if isinstance(y, ast.Constant) and isinstance(y.value, int):
+            k_ = _ca_int(y)
+            if k_ is not None:
                 a = linear(x, classify)
                 if a is None:
                     return None
-                return {k: v * y.value for k, v in a.items()}
+                return {k: v * k_ for k, v in a.items()}
         return None
     if isinstance(e, ast.Call) and norm(e.func) == 'len' and len(e.args) == 1:
         c = classify(e.args[0])
@@ -215,6 +217,12 @@ def rule_pairing(ctx, repo):
         r.undecided('level-loop', f.site, 'no single `while size > 1` loop')
         return
     w = wl[0]
+    # the level bookkeeping is integer arithmetic: a true division or a rounding call makes the level sizes wrong for
+    # some leaf counts (round() rounds halves to even)
+    inexact = [n for n in ast.walk(f.node) if (isinstance(n, ast.BinOp) and isinstance(n.op, ast.Div))
+               or (isinstance(n, ast.Call) and norm(n.func) in ('round', 'float', 'math.ceil', 'math.floor', 'int') and any(isinstance(x, ast.BinOp) and isinstance(x.op, ast.Div) for x in ast.walk(n)))]
+    r.check(not inexact, 'exact-arithmetic', common.site_of(f, inexact[0]) if inexact else f.site, 'integer arithmetic only',
+            'the tree builder computes `%s` with floating-point division / rounding: level sizes are wrong for some leaf counts (e.g. round(2.5) == 2)' % (norm(inexact[0]) if inexact else ''))
     shape.verdict(r, 'level-loop', common.site_of(f, w), w.test, 'size > 1', 'level loop condition')
     inner = [n for n in w.body if isinstance(n, ast.For)]
     if len(inner) != 1:
